@@ -432,6 +432,7 @@ def suites_for(pid, rng, tier):
     if pid == "C17":
         for c in CFG3:
             S.append(("fair", c, "scan", gen.gen_fair(rng, c, k, "f" + c[0])))
+            S.append(("fair-large", c, "scan", gen.gen_fair(rng, c, max(k // 10, 200), "fl" + c[0], large=True)))
         return "returns", S
     if pid == "C19":
         for c in CFG3:
